@@ -749,6 +749,26 @@ def exec_sc(case):
 # module contract
 # ----------------------------------------------------------------------------------------------------------------------
 def execute(case):
+    """Runs the case on a fresh thread.  pyMOTO records inspect.stack() in every Signal/Module constructor, whose cost
+    grows with the depth of the calling stack; a new thread starts with an empty stack, which makes a case 2-3 times
+    cheaper inside the runner's worker processes and changes nothing in the code under test."""
+    import threading
+    box = {}
+
+    def target():
+        try:
+            box['out'] = _execute(case)
+        except BaseException as e:  # noqa  (re-raised in the calling thread with its traceback)
+            box['exc'] = e
+    th = threading.Thread(target=target, daemon=True)
+    th.start()
+    th.join()
+    if 'exc' in box:
+        raise box['exc']
+    return box['out']
+
+
+def _execute(case):
     mod = case['mod']
     if mod == 'linsolve':
         return exec_linsolve(case)
